@@ -3,7 +3,7 @@ CONSTANTS
   Mods = {"a", "b", "c"}
   HasPxd = {"a", "b"}
   Pxis = {"i", "j"}
-  MaxT = 3
+  MaxT = 5
   MaxLen = 12
   Cadence = 3
   Dump = TRUE
